@@ -42,7 +42,7 @@ def Err.show : Err → String
 inductive Res (α : Type) where
   | ok (a : α) (rest : Bytes)
   | err (e : Err)
-  deriving Repr, Inhabited
+  deriving Repr, Inhabited, DecidableEq
 
 /-- a decoder step: current suffix ↦ value and new suffix, or an error class -/
 abbrev P (α : Type) := Bytes → Res α
